@@ -1,0 +1,12 @@
+//go:build verif
+// +build verif
+
+package gemmill
+
+import "github.com/dappledger/AnnChain/gemmill/blockchain"
+
+// VerifBlockchainReactor hands the verification harness the block-sync reactor of this node.
+func (a *Angine) VerifBlockchainReactor() *blockchain.BlockchainReactor {
+	r, _ := a.p2pSwitch.Reactor("BLOCKCHAIN").(*blockchain.BlockchainReactor)
+	return r
+}
